@@ -98,6 +98,11 @@ func (ex *Exec) call(f *Frame, st *State, x *ssa.Call, b *ssa.BasicBlock, i int,
 	}
 	ord := f.li.callOrd[x]
 	con := ex.prog.CS.ByName[name]
+	if con != nil && con.sweepOnly() {
+		// a contract that only asks for the safety sweep of the function's own
+		// body says nothing to callers: they treat the callee as if it had none
+		con = nil
+	}
 	setRes := func(st2 *State, vals []Val) {
 		if v := resultVal(sig.Results(), vals); v != nil {
 			f.regs[x] = v
@@ -563,7 +568,7 @@ func (ex *Exec) runDefers(f *Frame, st *State, b *ssa.BasicBlock, i int, prev *s
 		if callee != nil {
 			name = ex.prog.funcName(callee)
 		}
-		if con := ex.prog.CS.ByName[name]; con != nil && !con.Inline {
+		if con := ex.prog.CS.ByName[name]; con != nil && !con.Inline && !con.sweepOnly() {
 			ex.applyContract(f, st, d.call, con, name, f.li.callOrd[d.call], callee, c.Signature(), args)
 			continue
 		}
